@@ -600,6 +600,26 @@ func init() {
 				late()
 			}
 			if r.P(120) {
+				// a dependent whose shutdown command ends it and then reports a failure: its
+				// dependency is still stopped, after it, and the shutdown completes
+				sc.Project.Procs = append(sc.Project.Procs, &ProcSpec{Name: "fb", Token: "fb"}, &ProcSpec{Name: "fw", Token: "fw", StopCmd: "fw", DependsOn: map[string]string{"fb": "process_started"}})
+				sc.Scripts["fb"] = &TokenScript{Launches: []simos.Script{{LifeMs: -1, TermLagMs: Pick(r, 0, 100)}}}
+				sc.Scripts["fw"] = &TokenScript{Launches: []simos.Script{{LifeMs: -1, TermLagMs: Pick(r, 0, 10)}}}
+				sc.Scripts["simstop:fw"] = &TokenScript{Launches: []simos.Script{{LifeMs: Pick(r, 300, 600), Exit: 1, KillToken: "fw", KillSig: 15, KillAtMs: 5}}}
+				late()
+			}
+			if r.P(120) {
+				// the goroutine of an instance that was stopped while it was pending unwinds
+				// late, when its successor is running: the successor is still a dependent
+				sc.Project.Procs = append(sc.Project.Procs, &ProcSpec{Name: "gt", Token: "gt"}, &ProcSpec{Name: "gd", Token: "gd"},
+					&ProcSpec{Name: "gw", Token: "gw", DependsOn: map[string]string{"gt": "process_completed", "gd": "process_started"}})
+				sc.Scripts["gt"] = &TokenScript{Launches: []simos.Script{{LifeMs: Pick(r, 2000, 2500), Exit: 0}}}
+				sc.Scripts["gd"] = &TokenScript{Launches: []simos.Script{{LifeMs: -1, TermLagMs: Pick(r, 0, 100)}}}
+				sc.Scripts["gw"] = &TokenScript{Launches: []simos.Script{{LifeMs: -1, TermLagMs: Pick(r, 500, 1500)}}}
+				sc.Clients = append(sc.Clients, Client{Name: "again", Ops: []Op{{AtMs: 500, Op: "stop", Arg: "gw"}, {AtMs: 1000, Op: "start", Arg: "gw"}}})
+				late()
+			}
+			if r.P(120) {
 				// a process that only starts on request, started by hand, with a running dependency
 				sc.Project.Procs = append(sc.Project.Procs, &ProcSpec{Name: "bd", Token: "bd"}, &ProcSpec{Name: "tl", Token: "tl", Disabled: true, DependsOn: map[string]string{"bd": "process_started"}})
 				sc.Scripts["bd"] = &TokenScript{Launches: []simos.Script{{LifeMs: -1, TermLagMs: Pick(r, 0, 100)}}}
@@ -1018,6 +1038,22 @@ func init() {
 				return sc
 			case 2, 3:
 				genC18WS(r, sc)
+				return sc
+			case 4:
+				// windows are taken while the writers push the log past log_length + slack
+				sc.Arm = "trimrace"
+				spec.Race = true
+				spec.Size = Pick(r, 1, 5, 20)
+				for i := 0; i < r.Range(1, 2); i++ {
+					spec.Writers = append(spec.Writers, LBWriter{Lines: r.Range(130, 260), GapMs: 0, StartMs: 0})
+				}
+				for i := 0; i < r.Range(1, 3); i++ {
+					rd := LBReader{GapMs: 0}
+					for k := 0; k < r.Range(20, 60); k++ {
+						rd.Calls = append(rd.Calls, [2]int{Pick(r, 0, 3, 50, 1<<30), Pick(r, 0, 0, 7, 200)})
+					}
+					spec.Readers = append(spec.Readers, rd)
+				}
 				return sc
 			}
 			sc.Arm = "concurrent"
